@@ -259,3 +259,62 @@ func verifC09Aggregators(n int) {
 
 func VerifHarness_C09_Aggregators_2() { verifC09Aggregators(2) }
 func VerifHarness_C09_Aggregators_3() { verifC09Aggregators(3) }
+
+// C11-O5: vector aggregations over several steps: every step's result is what
+// a fresh iterator yields for that step alone (no group, heap or aggregator
+// state survives from one step to the next).
+func verifC11Steps(steps int) {
+	type opSpec struct {
+		op logql.VectorOp
+		k  int
+	}
+	ops := []opSpec{{logql.VectorOpSum, 0}, {logql.VectorOpCount, 0}, {logql.VectorOpMax, 0}, {logql.VectorOpTopk, 1}, {logql.VectorOpBottomk, 2}, {logql.VectorOpSort, 0}, {logql.VectorOpSortDesc, 0}}
+	o := ops[vsymChoice("op", len(ops))]
+	mkExpr := func() *logql.VectorAggregationExpr {
+		e := &logql.VectorAggregationExpr{Op: o.op}
+		if o.k > 0 {
+			k := o.k
+			e.Parameter = &k
+		}
+		return e
+	}
+	// three series in two groups; which are present varies per step
+	series := []*verifSeries{{key: 7, name: "a1"}, {key: 7, name: "a2"}, {key: 8, name: "b1"}}
+	var in []Step
+	for s := 0; s < steps; s++ {
+		var ss []Sample
+		for i, se := range series {
+			if vsymChoice("present", 2) == 1 {
+				ss = append(ss, Sample{Data: float64(10*(s+1) + i), Set: se})
+			}
+		}
+		in = append(in, Step{Timestamp: otelstorageTS(s + 1), Samples: ss})
+	}
+	multi, err := VectorAggregation(iterators.Slice(in), mkExpr())
+	vsymAssert(err == nil, "vector aggregation builds")
+	render := func(st Step) map[string]int {
+		m := map[string]int{}
+		for _, x := range st.Samples {
+			m[strconv.FormatUint(x.Set.Key(), 10)+"/"+x.Set.AsLokiAPI()["series"]+"="+strconv.FormatFloat(x.Data, 'g', -1, 64)]++
+		}
+		return m
+	}
+	for s := 0; s < steps; s++ {
+		var got Step
+		vsymAssert(multi.Next(&got), "one output step per input step")
+		single, err := VectorAggregation(iterators.Slice([]Step{in[s]}), mkExpr())
+		vsymAssert(err == nil, "vector aggregation builds")
+		var want Step
+		vsymAssert(single.Next(&want), "single step evaluates")
+		g, w := render(got), render(want)
+		vsymAssert(len(g) == len(w) && len(got.Samples) == len(want.Samples), "a step reports exactly the series of that step's input vector")
+		for k, n := range w {
+			vsymAssert(g[k] == n, "a step's result does not depend on earlier steps")
+		}
+		vsymAssert(got.Timestamp == want.Timestamp, "steps keep their timestamps")
+	}
+	vsymReach("C11_steps")
+}
+
+func VerifHarness_C11_Steps_2() { verifC11Steps(2) }
+func VerifHarness_C11_Steps_3() { verifC11Steps(3) }
